@@ -505,10 +505,11 @@ def relTags (path via : Str) : Except Err (List Str) :=
   if !(Str.startsWith path (via ++ dot)) then .error .logic
   else (dsnRelativefy path via).map (fun rel => dsnElements (stripIndexGroups rel))
 
-/-- `tester(entry, path)` of `Nodes.expand` (`query.py`), threading `record`. -/
+/-- `tester(entry, path)` of `Nodes.expand` (`query.py`), threading `record`; entries below a recorded path are
+    skipped by `path.startswith(f'{cached}.')` (repaired in 8ae8ddc: the test used to lack the delimiter). -/
 def expandTest (w : World) (via : Str) (record : List Str) (path : Str) (e : Entry) : Except Err (Bool × List Str) :=
   if via == path then .ok (false, record)
-  else if record.any (fun cached => Str.startsWith path cached) then .ok (false, record)
+  else if record.any (fun cached => Str.startsWith path (cached ++ dot)) then .ok (false, record)
   else
     match lastTag path with
     | .error er => .error er
@@ -656,18 +657,7 @@ def expandFullOf (canRes : Str → Bool) (x : Entry) (q : Path) : List Path :=
   | .tree _ cs => expandFullList canRes cs cs 0 q
   | _ => []
 
-/-- side condition 1 of `expand_spec` (decidable): among the entries `group_by(via, 3)` yields, a path whose last tag is
-    resolvable is a *string* prefix of another one only if it is an element-wise prefix (an ancestor or the path itself).
-    Fails e.g. for sibling tags `list` / `list_comp`: `record` then swallows the sibling (`path.startswith(cached)`). -/
-def PrefixSafe (w : World) (q : Path) (x : Entry) : Prop :=
-  ∀ R ∈ (under 3 x q).map (·.1), ∀ P ∈ (under 3 x q).map (·.1),
-    R.getLast?.map (fun el => w.table.canResolve el.tag) = some true →
-    Str.startsWith (encodePath P) (encodePath R) = true → R.isPrefixOf P = true
-
-instance (w : World) (q : Path) (x : Entry) : Decidable (PrefixSafe w q x) := by
-  unfold PrefixSafe; exact inferInstance
-
-/-- side condition 2 of `expand_spec` (decidable): for the terminals below `via`, `relativefy(via).de_identify().elements`
+/-- side condition of `expand_spec` (decidable): for the terminals below `via`, `relativefy(via).de_identify().elements`
     is the list of tags of the path elements below `via`. Fails when the string `via` occurs again further right in the
     path (`origin.split(starts)[1]`), e.g. `via = r`, path `r.ar.t`. -/
 def RelativefySafe (q : Path) (x : Entry) : Prop :=
